@@ -44,14 +44,14 @@ PROPS["C01"] = {
 }
 
 PROPS["C02"] = {
-    "level_text": "Theorems for ANY state of the four exhaustive kinds (flat, IVF, PQ, IVFPQ) and any request: every hit is justified by a resident, non-removed, eligible entry with the kind's score, the list is the exact top-k of the scanned candidates in ascending order with at most k entries, node-id search = search with the stored vector, unknown/removed node = error, and flush never changes an answer; HNSW soundness is covered by the HNSW model (C12). One generic Gallina model (soft-delete protocol + Execute pipeline + k-means training) is compared bit-for-bit with all kinds on generated histories every run.",
+    "level_text": "Theorems for ANY state of the four exhaustive kinds (flat, IVF, PQ, IVFPQ) and any request: every hit is justified by a resident, non-removed, eligible entry with the kind's score, the list is the exact top-k of the scanned candidates in ascending order with at most k entries, node-id search = search with the stored vector, unknown/removed node = error, and flush never changes an answer; HNSW soundness is covered by the HNSW model (C12). One generic Gallina model (soft-delete protocol + Execute pipeline + k-means training) is compared bit-for-bit with all kinds on generated histories every run. Node-search law evaluated on the implementation itself: WithNode(ids) answers like WithQuery(stored vectors of ids), repeated ids included.",
     "level_note": "Trusted: Coq kernel, extraction, harness, float32=SpecFloat, sort.Slice is a sort. Multi-query aggregation is compared exactly unless a per-query cut falls inside a tie group (then soundness only; counted as 'weak').",
     "correspondence": "{flat,ivf,pq,ivfpq}_index*.go + clustering.go ~ Model.VecIndex / Model.KMeans",
     "assumptions": ["ids fresh per history", "nbits <= 8 (the property's quantifier)"],
     "nontrivial_min_tokens": 30,
 }
 PROPS["C13"] = {
-    "level_text": "Theorems for every trained IVF state, query, k, threshold, id restriction and probe count: untrained add/search is an error; the answer is the exact top-k, by true metric distance, of the live eligible vectors of the probed clusters; with all clusters probed (or nprobes <= 0 / above nlist) it carries exactly the score sequence and length of exhaustive search over the same vectors; with more probes every rank is at least as good and the answer never shorter; Train establishes and Add/Remove/Flush keep the one-list-per-centroid invariant. Assignment to the first arg-min centroid is by construction of the model and compared structurally (dump) every run, together with k-means re-run inside the model.",
+    "level_text": "Theorems for every trained IVF state, query, k, threshold, id restriction and probe count: untrained add/search is an error; the answer is the exact top-k, by true metric distance, of the live eligible vectors of the probed clusters; with all clusters probed (or nprobes <= 0 / above nlist) it carries exactly the score sequence and length of exhaustive search over the same vectors; with more probes every rank is at least as good and the answer never shorter; Train establishes and Add/Remove/Flush keep the one-list-per-centroid invariant. Assignment to the first arg-min centroid is by construction of the model and compared structurally (dump) every run, together with k-means re-run inside the model. Also proved: a vector added is found by a query with that very vector at every probe count >= 1 (the stable probe order starts at the first arg-min centroid). Histories include ids added again while live (stored twice, like the code; score oracles abstain, removed-never-appears still decides).",
     "level_note": "Trusted: as C02. The partial-probe clause is additionally decided per run by an oracle evaluated on the implementation's own centroids and lists (probe_specb), so that a wrong probe order yields a failing query, not only a divergence.",
     "correspondence": "ivf_index*.go + clustering.go ~ Model.VecIndex (KIVF) / Model.KMeans",
     "assumptions": ["equidistant centroids at the probe boundary make the probed set ambiguous (unstable sort): such cases are compared for soundness only"],
@@ -86,7 +86,7 @@ PROPS["C03"] = {
 }
 
 PROPS["C04"] = {
-    "level_text": "Theorems: roaring's bit-sliced GE and LE comparisons are correct for ALL int64 pairs (induction over the 63 magnitude slices) while EQ/GT/LT/RANGE are refuted with witnesses; every numeric operator of the repaired index (built from GE/LE) selects exactly the ids satisfying the ordinary comparison; finite-set algebra of AND/OR/complement. The faithful Gallina model of metadata_index*.go (keys, prefix-based existence, early exits, error branches, float fixed-point conversion via float64 multiply + truncation) is compared with the code AND with a document-store specification on every generated history and filter tree.",
+    "level_text": "Theorems: roaring's bit-sliced GE and LE comparisons are correct for ALL int64 pairs (induction over the 63 magnitude slices) while EQ/GT/LT/RANGE are refuted with witnesses; every numeric operator of the repaired index (built from GE/LE) selects exactly the ids satisfying the ordinary comparison; finite-set algebra of AND/OR/complement. The faithful Gallina model of metadata_index*.go (keys, prefix-based existence, early exits, error branches, float fixed-point conversion via float64 multiply + truncation) is compared with the code AND with a document-store specification on every generated history and filter tree. Filter operands travel as typed values; the model (float_fix), not the implementation, converts them to two-decimal fixed point.",
     "level_note": "Trusted: as C02; fmt %v rendering of operands and Go map iteration (irrelevant for supported types). The end-to-end refinement 'index state simulates the document store for every history' is decided per run by the extracted specification (spec_search) on every sampled case, not closed as one Coq theorem (partial).",
     "correspondence": "metadata_index.go/metadata_index_search.go ~ Model.Metadata; roaring BSI compareValue ~ Model.BSI (checker 401)",
     "nontrivial_min_tokens": 20,
@@ -112,28 +112,28 @@ PROPS["C08"] = {
     "correspondence": "storage*.go ~ Model.Store (checker 800, incl. structure observations: segment ids / cached flags / memtable count)",
     "nontrivial_min_tokens": 60, "sub_max_len": 30000, "sub_per_checker": 4, "gen_timeout": 1500,
 }
-PROPS["C09"] = dict(PROPS["C08"], level_text="As C08 with 1..4 open/close sessions and reopening with fresh templates: durability after Flush/Close is REFUTED on the faithful model (theorem + witness add;Close;reopen;search), reproduced as a KNOWN-FINDING; 'segment identifiers are never reused' is proved for flush and compaction (invariant: all ids <= counter, pairwise distinct) and the reopen counter is the maximum id of any file name.")
+PROPS["C09"] = dict(PROPS["C08"], level_text="As C08 with 1..4 open/close sessions and reopening with fresh templates: durability after Flush/Close is REFUTED on the faithful model (theorem + witness add;Close;reopen;search), reproduced as a KNOWN-FINDING; 'segment identifiers are never reused' is proved for flush and compaction (invariant: all ids <= counter, pairwise distinct) and the reopen counter is the maximum id of any file name. Template kinds: flat and trained IVF (a fresh template trained on a fresh sample at every open); over IVF the specification demands that a live document is returned for its own stored vector at any probe count (theorem C13_added_vector_found_by_own_query).")
 PROPS["C09"]["correspondence"] = "storage.go/storage_provider.go/storage_segment.go ~ Model.Store (reopen = open_store over the directory listing)"
 
-PROPS["C10"] = dict(PROPS["C08"], level_text="Crash images are taken by a verif handler at every file-operation boundary of flushMemtable / writeIndexToSegment / compactSegments / deleteSegment (create x4, close, before/after registration, before drop, unregister, each file removal) plus synthetic byte-prefixes of the file being written in close order; each image is reopened by the real code with fresh templates and searched, and compared with the faithful model (segment files complete / truncated / payload-complete-truncated / empty / missing) and with the specification (everything covered by a completed Flush is found, nothing never-added or from an incomplete segment appears, reopening and searching never fail). Theorems: a segment with a broken/missing/empty hybrid or component file is ignored without touching the shared states and is never cached; identifiers are not reused; the half-load through a truncated LATER component is refuted with a witness.")
+PROPS["C10"] = dict(PROPS["C08"], level_text="Crash images are taken by a verif handler at every file-operation boundary of flushMemtable / writeIndexToSegment / compactSegments / deleteSegment (create x4, close, before/after registration, before drop, unregister, each file removal) plus synthetic byte-prefixes of the file being written in close order; each image is reopened by the real code with fresh templates and searched, and compared with the faithful model (segment files complete / truncated / payload-complete-truncated / empty / missing) and with the specification (everything covered by a completed Flush is found, nothing never-added or from an incomplete segment appears, reopening and searching never fail). Theorems: a segment with a broken/missing/empty hybrid or component file is ignored without touching the shared states and is never cached; identifiers are not reused; the half-load through a truncated LATER component is refuted with a witness. The order in which the component files are completed is OBSERVED at hook points after each gzip close (never assumed); a half-load in a crash image is a violation (the unchanged writers finish hybrid_ last), every finding code a case meets must be listed.")
 PROPS["C10"]["correspondence"] = "storage.go flush/compaction + storage_segment.go getIndex + storage_provider.go ~ Model.Store (load_segment, open_store)"
 
 PROPS["C17"] = {
-    "level_text": "Theorem over EVERY interleaving of O_EXCL lock attempts, directory scans (succeeding or failing), close-flag test-and-sets, lock releases and uses by any number of handles (goroutines or processes): the LOCK file exists exactly while one handle owns the directory, never two owners; busy open has no effect, a failed scan leaves no lock, Close releases, a second Close errors without effect, use after Close fails, reopen after Close succeeds. The protocol model is tied to storage_provider.go/storage.go by sequences and 2..8-goroutine races of Open/Close/use/failed Open and opens from a second process, with return codes and LOCK-file existence as observables.",
+    "level_text": "Theorem over EVERY interleaving of O_EXCL lock attempts, directory scans (succeeding or failing), close-flag test-and-sets, lock releases and uses by any number of handles (goroutines or processes): the LOCK file exists exactly while one handle owns the directory, never two owners; busy open has no effect, a failed scan leaves no lock, Close releases, a second Close errors without effect, use after Close fails, reopen after Close succeeds. The protocol model is tied to storage_provider.go/storage.go by sequences and 2..8-goroutine races of Open/Close/use/failed Open and opens from a second process, with return codes and LOCK-file existence as observables. Close racing Close (2..6 goroutines on one handle, with concurrent operations): exactly one nil, the others the closed error, no panic, lock released.",
     "level_note": "Trusted: Coq kernel, extraction, harness; O_CREATE|O_EXCL is atomic (file system). A failing directory scan cannot be provoked as root in this sandbox, so it is injected through the verifFault hook at both scans (initSegmentCounter, listSegments); the other failed open exercised is an unusable base path.",
     "correspondence": "storage_provider.go acquireLock/releaseLock + storage.go Open/Close ~ Model.Lock",
     "nontrivial_min_tokens": 12,
 }
 
 PROPS["C12"] = {
-    "level_text": "The HNSW procedures (Add with oracle level, insertNode, searchLayer over an exact transcription of container/heap, selectNeighbors, pruneConnections, Remove, Flush with oracle election, search) are transcribed and compared structurally (every edge of every layer, entry point, max level) and by search results with the real index on adversarial histories (removal of the entry point, hubs, highest-level vertices). Per run the extracted oracle decides the three clauses on the implementation's answers: non-empty while a live vector exists, exact k-NN while at most 2M vectors have been resident and ef >= that, and bottom-layer reachability of every resident vertex on the implementation's own graph. The reachability clause is REFUTED by a theorem with a six-insertion witness (known finding); four defects that broke the first two clauses were repaired by fix: commits.",
+    "level_text": "The HNSW procedures (Add with oracle level, insertNode, searchLayer over an exact transcription of container/heap, selectNeighbors, pruneConnections, Remove, Flush with oracle election, search) are transcribed and compared structurally (every edge of every layer, entry point, max level) and by search results with the real index on adversarial histories (removal of the entry point, hubs, highest-level vertices). Per run the extracted oracle decides the three clauses on the implementation's answers: non-empty while a live vector exists, exact k-NN while at most 2M vectors have been resident and ef >= that, and bottom-layer reachability of every resident vertex on the implementation's own graph. The reachability clause is REFUTED by a theorem with a six-insertion witness (known finding); four defects that broke the first two clauses were repaired by fix: commits. After a graph divergence the checker follows the implementation's graph; a vertex unreachable there while the model's graph is connected is a violation of the reachability clause, not the listed finding.",
     "level_note": "Trusted: as C02 plus container/heap semantics (transcribed, exercised bit-for-bit), random levels and the Flush election taken as oracle inputs (the election is checked for admissibility). The exactness and non-emptiness clauses are decided by the oracle on every sampled search, not closed as Coq theorems (partial). sort.Slice beyond 12 elements with equal distances is order-dependent: the model then resynchronises on the snapshot (counted as weak).",
     "correspondence": "hnsw_index.go/hnsw_index_search.go ~ Model.HNSW (checker 1200)",
     "nontrivial_min_tokens": 40, "sub_max_len": 20000, "sub_per_checker": 4,
 }
 
 PROPS["C20"] = {
-    "level_text": "Theorems for every input: k-means returns exactly min(k,n) centroids, one in-range assignment per vector, nil iff nothing to cluster, first-arg-min indices valid, determinism (a function); quantisers preserve length, int8 refuses to work untrained. The bit-exact transcriptions of clustering.go (stride initialisation, first arg-min, single-pass update, empty clusters keep their centroid, maxIter) and quantizer.go (binary16 rounding via SpecFloat at (11,16), math.Round half away from zero, scale by absMax) are compared with the code on training sets with duplicates, k>n, k=n, collinear data and boundary values; input immutability, run-to-run determinism and 'trained twice => search-identical' are observed on the implementation; finiteness, bounding box (Euclidean family) and the absMax/254 bound are evaluated on the implementation's outputs by the extracted oracle.",
+    "level_text": "Theorems for every input: k-means returns exactly min(k,n) centroids, one in-range assignment per vector, nil iff nothing to cluster, first-arg-min indices valid, determinism (a function); quantisers preserve length, int8 refuses to work untrained. The bit-exact transcriptions of clustering.go (stride initialisation, first arg-min, single-pass update, empty clusters keep their centroid, maxIter) and quantizer.go (binary16 rounding via SpecFloat at (11,16), math.Round half away from zero, scale by absMax) are compared with the code on training sets with duplicates, k>n, k=n, collinear data and boundary values; input immutability, run-to-run determinism and 'trained twice => search-identical' are observed on the implementation; finiteness, bounding box (Euclidean family) and the absMax/254 bound are evaluated on the implementation's outputs by the extracted oracle. The float16 clause is a spec oracle: |x - deq(q x)| <= 2^-11 |x| on the normal range (exact in float32), every binade, binade boundaries and rounding ties generated.",
     "level_note": "Trusted: as C02 plus x448/float16 = IEEE round-to-nearest-even (exercised on boundary values). The real-number bounds (bounding box, half-ulp, absMax/254) are checked per run on outputs, not proved over floats (partial).",
     "correspondence": "clustering.go ~ Model.KMeans; quantizer.go ~ Model.Quantizer",
     "nontrivial_min_tokens": 12,
@@ -150,7 +150,7 @@ PROPS["C15"] = {
 }
 
 PROPS["C11"] = {
-    "level_text": "Proved over ALL schedules: the two-phase soft-delete Remove / one-step Add, Search, Flush protocol shared by every vector index and BM25 is visibility-linearizable (a search returns every id added before it whose removal had not begun, nothing never added, nothing whose removal took effect), and the repaired memtable queue never reports a frozen memtable (the original is refuted with the schedule pick; rotate; write). Tied to the code and extended to what no Gallina model can exhibit by a harness built with the Go race detector: 2..16 goroutines of Add / Remove / search / Flush / WriteTo (and rotation, background flush, TriggerCompaction, Close for the store) on one shared instance of each of the five vector kinds, BM25, metadata, hybrid and the store, with logical begin/end times per operation; the recorded executions are judged by the extracted visibility oracle, any race report, panic, watchdog timeout (deadlock) or spurious failure fails the check; plus the targeted schedule at the verif yield point between picking the active memtable and writing to it, and uniqueness of automatically generated ids across goroutines and instances.",
+    "level_text": "Proved over ALL schedules: the two-phase soft-delete Remove / one-step Add, Search, Flush protocol shared by every vector index and BM25 is visibility-linearizable (a search returns every id added before it whose removal had not begun, nothing never added, nothing whose removal took effect), and the repaired memtable queue never reports a frozen memtable (the original is refuted with the schedule pick; rotate; write). Tied to the code and extended to what no Gallina model can exhibit by a harness built with the Go race detector: 2..16 goroutines of Add / Remove / search / Flush / WriteTo (and rotation, background flush, TriggerCompaction, Close for the store) on one shared instance of each of the five vector kinds, BM25, metadata, hybrid and the store, with logical begin/end times per operation; the recorded executions are judged by the extracted visibility oracle, any race report, panic, watchdog timeout (deadlock) or spurious failure fails the check; plus the targeted schedule at the verif yield point between picking the active memtable and writing to it, and uniqueness of automatically generated ids across goroutines and instances. A contended phase releases 16 goroutines together on the same id (remove / re-add / search) with a per-round watchdog; judged for termination and panics only.",
     "level_note": "PARTIAL by nature: data races, runtime panics and real deadlocks are runtime facts; the race detector and a watchdog only SEARCH for them (sampled schedules). The store's visibility run avoids flushes (segment loads overwrite the shared templates: known finding C08/1); the flush/compaction run checks races, panics, deadlocks and spurious failures only.",
     "correspondence": "lock-protected sections of *_index.go, hybrid_search_index.go, storage*.go ~ Model.Conc steps (observed through recorded executions)",
     "race": True, "nontrivial_min_tokens": 8, "sub_max_len": 4000, "gen_timeout": 900,
